@@ -327,3 +327,22 @@ def finish(ctx, rule, exhaustive=False, explanation=None):
         print("  " + what[:600], file=sys.stderr)
     ctx.cleanup()
     return 1 if ctx.violations else 0
+
+
+def validate_lines(ctx, module, cfg, copy, timeout=3000, xss="256m"):
+    """Run a one-pass trace spec whose lines are independent: every line is judged, rejected line numbers are printed.
+    -> (sorted rejected 1-based line numbers, number of lines, TLCResult)"""
+    r = run_tlc(ctx, module, cfg, workers=1, timeout=timeout, copy=copy, want_lines=False, xss=xss)
+    if r.error or r.violation:
+        raise Broken("%s: %s\n%s" % (module, r.error or r.violation, r.out[-2000:]))
+    full = open(os.path.join(r.dir, "tlc.out"), errors="replace").read()
+    m = re.findall(r'<<"REACHED", (\d+), (\d+)>>', full)
+    if not m:
+        raise Broken("%s: no REACHED line\n%s" % (module, r.out[-1500:]))
+    reached, total = int(m[-1][0]), int(m[-1][1])
+    if reached != total + 1:
+        raise Broken("%s stopped at line %d of %d" % (module, reached, total))
+    rej = sorted({int(x) for x in re.findall(r'<<"REJECT", (\d+)>>', full)})
+    ctx.cov["states"] += r.distinct
+    ctx.cov["transitions"] += r.generated
+    return rej, total, r
